@@ -258,7 +258,7 @@ Proof.
   pose proof (sym_bridge_lookup s sv SlLstat cs Hos Hwf Hlc Hrd Hg) as H. cbv zeta in H.
   change (follow_of SlLstat) with false in H. rewrite HK in H.
   specialize (H ltac:(discriminate) ltac:(discriminate) Hnf). cbn [walk_rel] in H.
-  destruct H as (H1 & H2 & _ & _ & H4). destruct (H4 eq_refl) as (H5 & H6).
+  destruct H as (H1 & H2 & _ & _ & _ & H4). destruct (H4 eq_refl) as (H5 & H6).
   destruct (at_name_views _ _ _ _ _ _ (H6 eq_refl)) as (H7 & _).
   split; [exact H1|]. split; [exact H2|]. split; [exact H5|exact H7].
 Qed.
